@@ -61,4 +61,10 @@ def decode_values(d, shard_info):
     ft = d.dataset_structure.shard_file_type
     cls = {"fb": IterateShardFlatBuffer, "npz": IterateShardNP}[ft]
     it = cls(dataset_structure=d.dataset_structure, process_record=None)
-    return [int(e["a"][0]) for e in it.iterate_shard(d.path / shard_info.file_infos[0].file_path)]
+    out = []
+    for e in it.iterate_shard(d.path / shard_info.file_infos[0].file_path):
+        try:
+            out.append(int(e["a"][0]))
+        except Exception:  # noqa: BLE001 - the example decodes, its first attribute is just not our integer id
+            out.append(None)
+    return out
